@@ -167,6 +167,47 @@ struct Gen
 		}
 		return t;
 	}
+	// --- format-driven reading: Date(text, format) ---
+	std::string patFormat()
+	{
+		static const char* fs[] = {"Y-M-D h:m:s", "D/M/Y?h:m", "Y?M?D", "h:m:s D.M.Y", "Y-M-D?????????Z", "??Y-M-DTh:m", "YMD", "D.M.Y", "Y/M/D h:m",
+		                           "Y-M-DTh:m:sZ", "?Y?M?D?", "D M Y ????", "Yx Mx D"};
+		std::string f = fs[rng.below(sizeof fs / sizeof fs[0])];
+		if (rng.chance(15)) { int n = rng.range(1, 12); f += std::string((size_t)n, '?'); if (rng.chance(50)) f += rng.chance(50) ? "s" : "Z"; }
+		return f;
+	}
+	std::string patText(const std::string& f)
+	{
+		int y = rng.chance(30) ? rng.range(1, 9999) : rng.range(1890, 2110), m = rng.range(1, 12);
+		int v[6] = {y, m, rng.chance(10) ? rng.range(29, 31) : rng.range(1, dim(y, m)), rng.below(24), rng.below(60), rng.below(60)};
+		bool padded = rng.chance(60);
+		std::string t;
+		char b[16];
+		for (size_t k = 0; k < f.size(); k++)
+		{
+			const char* ix = strchr("YMDhms", f[k]);
+			if (ix && f[k]) { snprintf(b, sizeof b, padded ? (f[k] == 'Y' ? "%04d" : "%02d") : "%d", v[ix - "YMDhms"]); t += b; }
+			else t += f[k] == '?' ? randomChar() : f[k];
+		}
+		int r = rng.below(100);
+		if (r < 25 && !t.empty()) t.resize((size_t)rng.below((int)t.size() + 1));      // ends before the format does
+		else if (r < 40) t = mutate(t);
+		return t;
+	}
+	// hazard PatternWildcardPastEnd evaluated on the input (only used to avoid it while it is an open finding)
+	static bool wildcardPastEnd(const std::string& t, const std::string& f)
+	{
+		size_t pt = 0;
+		for (size_t pf = 0; pf < f.size(); pf++)
+		{
+			if (strchr("YMDhms", f[pf])) { while (pt < t.size() && t[pt] >= '0' && t[pt] <= '9') pt++; }
+			else if (pt >= t.size()) return f[pf] == '?' && pf + 1 < f.size();
+			else if (f[pf] == '?' || t[pt] == f[pf]) pt++;
+			else return false;
+		}
+		return false;
+	}
+
 	std::string text()
 	{
 		int r = rng.below(100);
@@ -204,7 +245,7 @@ int main(int argc, char** argv)
 			         p.minutes, p.seconds, p.weekDay);
 			log.line(b);
 		}
-		else if (r < 45)
+		else if (r < 40)
 		{
 			int y = rng.chance(50) ? rng.range(1, 9999) : rng.range(1890, 2110), m = rng.range(1, 12);
 			int d = rng.chance(30) ? dim(y, m) : rng.range(1, dim(y, m));
@@ -218,7 +259,7 @@ int main(int argc, char** argv)
 				snprintf(b, sizeof b, "{\"e\":\"make\",\"f\":[%d,%d,%d,%d,%d,%d],\"i\":%s}", y, m, d, h, mi, s, j3(i).c_str());
 			log.line(b);
 		}
-		else if (r < 65)
+		else if (r < 56)
 		{
 			Inst want = gen.instant(), i;
 			if (want.dn == DN_MAX && want.sod == 86399 && want.us >= 999500) want.us = 0; // would round into year 10000
@@ -227,6 +268,17 @@ int main(int argc, char** argv)
 			int k = rng.below(4);
 			String s = Date(t).toUTCString(fmtVal[k]);
 			log.line("{\"e\":\"text\",\"i\":" + j3(i) + ",\"fmt\":\"" + fmtName[k] + "\",\"t\":" + vj::codes(std::string(*s, (size_t)s.length())) + "}");
+		}
+		else if (r < 68)
+		{
+			std::string f = gen.patFormat(), t = gen.patText(f);
+			if (args.avoid.count("PatternWildcardPastEnd") && Gen::wildcardPastEnd(t, f)) continue;
+			Date d(String(t.c_str(), (int)t.size()), String(f.c_str(), (int)f.size()));
+			Inst i;
+			double v = d.time();
+			int ok = (v != v) ? 0 : project(v, i) ? 1 : 2;
+			if (ok != 1) { i.dn = 0; i.sod = 0; i.us = 0; }
+			log.line("{\"e\":\"pread\",\"t\":" + vj::codes(t) + ",\"f\":" + vj::codes(f) + ",\"ok\":" + std::to_string(ok) + ",\"i\":" + j3(i) + "}");
 		}
 		else
 		{
